@@ -6,6 +6,7 @@ import Gofasta.Driver.C10
 import Gofasta.Driver.Var
 import Gofasta.Driver.Sam
 import Gofasta.Driver.SamVar
+import Gofasta.Driver.C08
 namespace Gofasta.Driver
 
 def dispatch (c : Case) : Verdict :=
@@ -21,6 +22,7 @@ def dispatch (c : Case) : Verdict :=
   | "TOMA" => runToma c
   | "TOPA" => runTopa c
   | "SAMVAR" => runSamVar c
+  | "C08" => runC08 c
   | _ => { agree := false, spec := "na", model := "unknown-property" }
 
 end Gofasta.Driver
